@@ -203,7 +203,7 @@ fn main() {
         std::process::exit(print_replay(job, &v["replay"]));
     }
     let wall = args.wall_s.unwrap_or(if tier == "quick" { 55 } else { 1500 });
-    let cfg = Cfg { wall: Duration::from_secs(wall), threads: mc_core::cli::threads(), max_unknown: 12 };
+    let cfg = Cfg { wall: Duration::from_secs(wall), threads: mc_core::cli::threads(), max_unknown: 100000 };
     let mut rep = Reporter::new(&prop);
     let mut l1 = None;
     if prop == "C01" {
